@@ -98,6 +98,58 @@ def run(res, tier):
     res.ob('READER', f.where(), 'ReadCString: terminator not found => sticky status set, no Advance', flagged, function=f.q, key='READER|%s|unterminated' % f.q,
            message='ReadCString no longer flags unterminated input through the sticky status (or advances past the buffer): String::Unflatten accepts a string without terminator')
     S.sticky_rule(res, fx, 'STICKY', file_re=r'^util/String\.', floor=1)
+    # ---- round-1 additions (in-memory clause, two structural necessary conditions)
+    fs = fx
+    res.units = sorted(set(res.units + ['util/String.cpp', 'message/Message.cpp']))
+    smeth = sorted((f for f in fs.funcs.values() if f.full and f.cls == 'muscle::String'), key=lambda f: (f.file, f.line))
+    res.rule('LENGTH-LAST', 'in every String method SetLength() is the commit point: no memmove/memcpy/memset on the character buffer is reachable after it (in small-buffer mode SetLength() rewrites the '
+                            'last byte of the inline buffer, which is the NUL terminator of a 15-character string)', floor=5)
+    n_ll = 0
+    for f in smeth:
+        sl = [c for c in f.walk() if c.is_call() and (c.get('q') or '').endswith('String::SetLength')]
+        mv = [c for c in f.walk() if c.is_call() and (c.get('q') or '') in ('memmove', 'memcpy', 'memset', 'strcpy', 'strncpy')]
+        if not sl or not mv:
+            continue
+        n_ll += 1
+        bad = None
+        for s_ in sl:
+            for m in mv:
+                sp, mp = P.pos_of(f, s_), P.pos_of(f, m)
+                if sp and mp and ((sp[0] == mp[0] and sp[1] < mp[1]) or C.can_reach(f, sp, set([mp]))):
+                    bad = (s_, m)
+        res.ob('LENGTH-LAST', f.where(), '%s: buffer moves precede SetLength()' % f.q.split('::')[-1], bad is None, function=f.q, key='LENGTH-LAST|%s' % f.q,
+               message='%s calls %s (line %s) after SetLength() (line %s): for a string that exactly fills the inline buffer SetLength() has already overwritten the terminator byte, so the move copies '
+                       'a non-NUL byte: the string loses its terminator (comparisons run past the object, Flatten() writes no NUL)' % (f.q, bad[1].get('q') if bad else '', bad[1].get('l') if bad else '', bad[0].get('l') if bad else ''))
+    res.rule('SELF-ALIAS', 'a String method that takes a const char * and may move its own buffer while keeping the contents (EnsureBufferSize(n, true, ...) / Prealloc) before reading from that pointer '
+                           'evaluates IsCharInLocalArray(ptr) on every path before the buffer can move', floor=2)
+    n_sa = 0
+    for f in smeth:
+        cps = [p_ for p_ in f.params if f.ptype(p_).replace(' ', '') in ('constchar*', 'constchar*const')]
+        if not cps or f.q.endswith('(ctor)'):
+            continue           # (a constructor's argument cannot point into the object being constructed)
+        grow = [c for c in f.walk() if c['k'] == 'CXXMemberCallExpr' and (((c.get('q') or '').endswith('String::EnsureBufferSize') and len(c.args()) >= 2 and c.args()[1].get('v') in (1, True))
+                                                                       or (c.get('q') or '').endswith('String::Prealloc'))]
+        if not grow:
+            continue
+        for p_ in cps:
+            reads_after = False
+            for g in grow:
+                gp = P.pos_of(f, g)
+                for u in f.walk():
+                    if u['k'] == 'DeclRefExpr' and u.get('d') == p_['d']:
+                        up = P.pos_of(f, u)
+                        if gp and up and ((gp[0] == up[0] and gp[1] < up[1]) or C.can_reach(f, gp, set([up]))):
+                            reads_after = True
+            if not reads_after:
+                continue
+            n_sa += 1
+            chk = [c for c in f.walk() if c.is_call() and (c.get('q') or '').endswith('String::IsCharInLocalArray') and any(x['k'] == 'DeclRefExpr' and x.get('d') == p_['d'] for x in c.walk())]
+            ok = bool(chk) and all(P.must_precede(f, chk, g) for g in grow)
+            res.ob('SELF-ALIAS', f.where(), '%s evaluates IsCharInLocalArray(%s) on every path before the buffer can move' % (f.q.split('::')[-1], p_.get('n')), ok, function=f.q, key='SELF-ALIAS|%s' % f.q,
+                   message='%s can reallocate (or move from the inline buffer to the heap) before it reads from `%s` without having tested whether that pointer refers into the string itself: '
+                           's += s() on a short string appends bytes of the overwritten inline storage (pointer/length fields) instead of the text' % (f.q, p_.get('n')))
+    if n_ll < 5 or n_sa < 2:
+        raise AnalysisBroken('LENGTH-LAST / SELF-ALIAS matched %d / %d String methods' % (n_ll, n_sa))
     res.explanation = ('Static decision of the serialisation clause of C17 only: symbolic evaluation shows String::Flatten writes FlattenedSize() == Length()+1 bytes from Cstr(); the reader takes a NUL-terminated '
                        'string whose scan is bounded by the bytes available and whose failure sets the sticky status, which String::Unflatten consults before returning OK. '
                        'Everything else in C17 (in-memory operations, small-buffer boundary, aliasing) is not decided.')
